@@ -113,12 +113,30 @@ func caseSchema(c hx.Case) (*openapi3.Schema, error) {
 	return ref.Value, nil
 }
 
+// ctxOpts: the request/response reading of a case ("ctx": "asreq" | "asrep", "roOff", "woOff")
+func ctxOpts(c hx.Case) []openapi3.SchemaValidationOption {
+	var o []openapi3.SchemaValidationOption
+	switch jstr(c, "ctx") {
+	case "asreq":
+		o = append(o, openapi3.VisitAsRequest())
+	case "asrep":
+		o = append(o, openapi3.VisitAsResponse())
+	}
+	if jbool(c, "roOff") {
+		o = append(o, openapi3.DisableReadOnlyValidation())
+	}
+	if jbool(c, "woOff") {
+		o = append(o, openapi3.DisableWriteOnlyValidation())
+	}
+	return o
+}
+
 func runC01(c hx.Case) any {
 	s, err := caseSchema(c)
 	if err != nil {
 		return map[string]any{"kind": "schema-unmarshal-error", "err": err.Error()}
 	}
-	err = s.VisitJSON(plainValue(c["value"]))
+	err = s.VisitJSON(plainValue(c["value"]), ctxOpts(c)...)
 	return map[string]any{"ok": err == nil}
 }
 
@@ -260,6 +278,7 @@ var c01Atoms = []kwAtom{
 	{"minItems", 1}, {"maxItems", 1}, {"uniqueItems", true},
 	{"required", []any{"a"}}, {"minProperties", 1}, {"maxProperties", 1}, {"additionalProperties", false}, {"additionalProperties", true},
 	{"minimum", 2147483647}, {"maximum", -1}, {"minLength", 0}, {"maxLength", 0}, {"maxItems", 0}, {"required", []any{"a", "b"}}, {"maxProperties", 0},
+	{"readOnly", true}, {"writeOnly", true},
 }
 
 var c01TopAtoms = []kwAtom{
@@ -271,14 +290,24 @@ func c01Leafs() []map[string]any {
 		{}, {"type": "string"}, {"type": "integer"}, {"type": "number", "minimum": 1}, {"nullable": true}, {"type": "string", "nullable": true},
 		{"enum": []any{1, "a"}}, {"maxLength": 1}, {"type": "object", "required": []any{"a"}}, {"type": "array", "maxItems": 1},
 		{"not": map[string]any{}}, {"multipleOf": 2}, {"type": "boolean"}, {"minimum": 1, "maximum": 2},
+		{"readOnly": true}, {"writeOnly": true, "type": "integer"},
 	}
 }
 
-var c01Values = []any{
-	nil, true, false, 0, 1, 2, 3, 1.5, 0.5, -1, 2147483647, 2147483648, "", "a", "ab", "abc", "b", "2020-01-01",
-	[]any{}, []any{1}, []any{1, 1}, []any{1, "a"}, []any{nil}, []any{"ab", "abc"}, []any{[]any{1}},
-	map[string]any{}, map[string]any{"a": 1}, map[string]any{"a": nil}, map[string]any{"a": 1, "b": "x"}, map[string]any{"b": 2}, map[string]any{"a": map[string]any{"a": "abc"}},
+var c01Scalars = []any{
+	nil, true, false, 0, 1, 2, 3, 1.5, 0.5, -1, 2147483647, 2147483648, "", "a", "ab", "abc", "b", "2020-01-01", "1", "true", "1.5", "null",
 }
+
+var c01Values = append(append([]any{}, c01Scalars...), []any{
+	[]any{}, []any{1}, []any{1, 1}, []any{1, "a"}, []any{nil}, []any{"ab", "abc"}, []any{[]any{1}},
+	// arrays whose items differ only in type / are equal as JSON values (uniqueItems)
+	[]any{1, "1"}, []any{true, "true"}, []any{1.5, "1.5"}, []any{nil, "null"}, []any{"a", "a"}, []any{nil, nil},
+	[]any{[]any{1}, []any{1}}, []any{map[string]any{"a": 1}, map[string]any{"a": 1}}, []any{map[string]any{"a": 1}, map[string]any{"a": 2}},
+	map[string]any{}, map[string]any{"a": 1}, map[string]any{"a": nil}, map[string]any{"a": 1, "b": "x"}, map[string]any{"b": 2}, map[string]any{"a": map[string]any{"a": "abc"}},
+	map[string]any{"a": "", "b": nil}, map[string]any{"c": nil},
+	map[string]any{"p": map[string]any{"a": 1}}, map[string]any{"p": map[string]any{}}, []any{map[string]any{"a": 1}}, []any{map[string]any{}},
+	map[string]any{"a": map[string]any{"a": 1}, "b": 1}, map[string]any{"a": map[string]any{}},
+}...)
 
 func mergeAtoms(base map[string]any, atoms ...kwAtom) map[string]any {
 	out := map[string]any{}
@@ -322,6 +351,25 @@ func c01Schemas(ctx *hx.Ctx) []map[string]any {
 			comps = append(comps, map[string]any{"properties": map[string]any{"a": l, "b": m}})
 			comps = append(comps, map[string]any{"properties": map[string]any{"a": l}, "additionalProperties": m})
 		}
+	}
+	// object sub-schemas with read-only / write-only / required members under every composition keyword (depth 2)
+	objLeafs := []map[string]any{
+		{"properties": map[string]any{"a": map[string]any{"readOnly": true}}, "required": []any{"a"}},
+		{"properties": map[string]any{"a": map[string]any{"writeOnly": true}}, "required": []any{"a"}},
+		{"type": "object", "properties": map[string]any{"a": map[string]any{"readOnly": true, "type": "integer"}, "b": map[string]any{"writeOnly": true}}},
+		{"type": "object", "required": []any{"a", "b"}, "properties": map[string]any{"a": map[string]any{"readOnly": true}}},
+		{"properties": map[string]any{"a": map[string]any{"type": "string", "maxLength": 1}}, "additionalProperties": false},
+	}
+	for _, l := range objLeafs {
+		for _, k := range []string{"allOf", "anyOf", "oneOf"} {
+			comps = append(comps, map[string]any{k: []any{l}})
+			for _, m := range objLeafs {
+				comps = append(comps, map[string]any{k: []any{l, m}})
+			}
+			comps = append(comps, map[string]any{k: []any{l, map[string]any{"type": "string"}}})
+		}
+		comps = append(comps, map[string]any{"not": l}, map[string]any{"items": l}, map[string]any{"additionalProperties": l},
+			map[string]any{"properties": map[string]any{"a": l}}, map[string]any{"properties": map[string]any{"p": l}, "required": []any{"p"}})
 	}
 	out = append(out, comps...)
 	for i, cmp := range comps {
@@ -397,7 +445,7 @@ func randValue(r *hx.Rng, depth int) any {
 		}
 		return m
 	}
-	return hx.Pick(r, c01Values[:18])
+	return hx.Pick(r, c01Scalars)
 }
 
 // discriminator family: components A, B (objects told apart by property "t") and oneOf schemas over them
@@ -442,6 +490,23 @@ func c01DiscCases() []hx.Case {
 	return out
 }
 
+// emitCtx emits a case as it is and, when the schema says readOnly/writeOnly somewhere, also under the request and the
+// response reading, with and without the switch-off options.
+func emitCtx(emit func(hx.Case), c hx.Case) {
+	emit(withOracle(c))
+	b, _ := json.Marshal(c["schema"])
+	if !strings.Contains(string(b), "Only\"") {
+		return
+	}
+	for _, v := range []map[string]any{{"ctx": "asreq"}, {"ctx": "asrep"}, {"ctx": "asreq", "roOff": true}, {"ctx": "asrep", "woOff": true}} {
+		x := cloneCase(c)
+		for k, val := range v {
+			x[k] = val
+		}
+		emit(withOracle(x))
+	}
+}
+
 func genC01(ctx *hx.Ctx, emit func(hx.Case)) {
 	for i, c := range c01DiscCases() {
 		if !ctx.Thorough() && i%2 == 1 && i%7 != 0 {
@@ -451,7 +516,7 @@ func genC01(ctx *hx.Ctx, emit func(hx.Case)) {
 	}
 	for _, s := range c01Schemas(ctx) {
 		for _, v := range c01Values {
-			emit(withOracle(hx.Case{"schema": s, "value": v}))
+			emitCtx(emit, hx.Case{"schema": s, "value": v})
 		}
 	}
 	n := 6000
@@ -461,7 +526,7 @@ func genC01(ctx *hx.Ctx, emit func(hx.Case)) {
 	for i := 0; i < n; i++ {
 		s := randSchema(ctx.Rng, 1+ctx.Rng.Intn(3))
 		for j := 0; j < 3; j++ {
-			emit(withOracle(hx.Case{"schema": s, "value": randValue(ctx.Rng, 1+ctx.Rng.Intn(3))}))
+			emitCtx(emit, hx.Case{"schema": s, "value": randValue(ctx.Rng, 1+ctx.Rng.Intn(3))})
 		}
 	}
 }
